@@ -265,6 +265,14 @@ func init() {
 		if family == "timeparse" {
 			// date tokens of ONE layout per run (the helper caches the first layout it detects, by design)
 			iso := t.WBool(1, 2)
+			var burst []string
+			for k := 2 + t.W(3); k > 0; k-- {
+				if iso {
+					burst = append(burst, fmt.Sprintf("2021-%02d-%02d ", 1+t.W(12), 1+t.W(28)))
+				} else {
+					burst = append(burst, fmt.Sprintf("2021-%02d-%02dT%02d:04:05Z ", 1+t.W(12), 1+t.W(28), t.W(24)))
+				}
+			}
 			verb := regexp.MustCompile(`(?m)^[A-Z]+ `)
 			digits := regexp.MustCompile(`(?m)^(\d)`)
 			for i := range sc.Inputs {
@@ -273,6 +281,11 @@ func init() {
 				sc.Inputs[i].Data = verb.ReplaceAllFunc(sc.Inputs[i].Data, func(m []byte) []byte {
 					if t.W(3) == 0 {
 						return m
+					}
+					// log lines come in bursts that share a timestamp: most tokens are drawn from a few values per run, so that
+					// anything a stage remembers about "the last timestamp" is hit, also by another worker
+					if t.W(4) != 0 {
+						return []byte(burst[t.W(len(burst))])
 					}
 					if iso {
 						return []byte(fmt.Sprintf("2021-%02d-%02d ", 1+t.W(12), 1+t.W(28)))
